@@ -265,7 +265,15 @@ def run_write_input(part, w, items, shape, cuts, case, tag=None):
             _viol(part, w, 'lof/while-reading', 'LOF(1)=%r before item %d but the file has %d bytes' % (
                 s.get_variable('L9#'), i + 1, len(host)), case)
         rn = b'R%d%s' % (i, b'$' if it[0] == 's' else it[1])
-        r = w.run(b'INPUT#1,' + rn)
+        if case.get('deftype'):
+            # the same read into a variable that has its type from a DEFtype default, written without sigil
+            w.must(b'DEFSTR S:DEFINT I:DEFSNG F:DEFDBL D')
+            sig = b'$' if it[0] == 's' else it[1]
+            bare = {b'$': b'S', b'%': b'I', b'!': b'F', b'#': b'D'}[sig] + b'R%d' % i
+            rn = bare + sig
+            r = w.run(b'INPUT#1,' + bare)
+        else:
+            r = w.run(b'INPUT#1,' + rn)
         if r.exc is not None:
             _viol(part, w, 'input/host-exception/' + H.exc_key(r.exc), 'INPUT#1: %r' % (r.exc,), case)
             return
@@ -363,7 +371,8 @@ Worker.numtext = lambda self, it: _numtext(self, it)[0]
 
 def work_write_input(shard):
     part = Partial()
-    sl, cases = shard
+    sl, cases = shard[:2]
+    deftype = len(shard) > 2 and shard[2] == 'deftype'
     w = Worker(sl)
     try:
         # render all number texts first (also the sanity check of the representation)
@@ -377,6 +386,8 @@ def work_write_input(shard):
         for idxs, shape, cuts in cases:
             items = [ALL_ITEMS[i] for i in idxs]
             case = {'items': list(idxs), 'shape': shape, 'cuts': list(cuts), 'sl': sl}
+            if deftype:
+                case['deftype'] = True
             run_write_input(part, w, items, shape, cuts, case)
             part.n += 1
             part.traces += 1
@@ -692,6 +703,10 @@ def legs(ctx):
                          'pairs of such strings, written by one WRITE# (items ending at every offset around each multiple '
                          'of 256 characters on the line), x soft_linefeed off/on' % (
                              len(ccases) * 2, COL_LENGTHS[0], COL_LENGTHS[-1])))
+    dcases = [(idxs, 'one', (len(idxs),)) for idxs in _seqs(len(ITEMS), 2) if idxs]
+    out.append(Leg('input-deftype', [(False, ch, 'deftype') for ch in chunked(dcases, 60)], work_write_input, exhaustive=True,
+                   bound='all %d records of 1..2 items over the %d items, read back with INPUT# into variables written without '
+                         'type sigil under DEFSTR / DEFINT / DEFSNG / DEFDBL defaults' % (len(dcases), len(ITEMS))))
     ncases = [((TAIL_INDEX + 1 + i,), 'one', (1,)) for i in range(len(NEAR_WHOLE))]
     ncases += [((TAIL_INDEX + 1 + i, TAIL_INDEX), 'one', (2,)) for i in range(len(NEAR_WHOLE))]
     out.append(Leg('write-numbers', [(sl, ch) for sl in (False, True) for ch in chunked(ncases, 20)], work_write_input,
@@ -732,7 +747,7 @@ def replay(ctx, leg, case):
         if 'units' in case:
             run_mixed(part, w, [MIX_UNITS[i] for i in case['units']], case)
             return part
-        if leg in ('write-input', 'write-column', 'write-numbers'):
+        if leg in ('write-input', 'write-column', 'write-numbers', 'input-deftype'):
             items = [ALL_ITEMS[i] for i in case['items']]
             for it in items:
                 if it[0] == 'n':
